@@ -97,13 +97,17 @@ class B09Lib:
         self.text = self.path.read_text()
         self.procs: Dict[str, Proc] = {}
         self.order: List[str] = []
+        self.duplicates: List[Tuple[str, int, int]] = []
+        self.malformed: List[Tuple[int, str, str]] = []
         cur: Optional[Proc] = None
         for i, raw in enumerate(re.split(r"\r\n|\r|\n", self.text), start=1):
             m = _PROC.match(raw)
             if m:
                 cur = Proc(m.group(1), i)
                 if cur.name in self.procs:
-                    raise AnalysisError("M7", cur.name, "procedure defined twice in ecb.b09")
+                    # the bank keeps the text it read last under a name: so does this model; the rule L4 reports it
+                    self.duplicates.append((cur.name, self.procs[cur.name].line, i))
+                    self.order.remove(cur.name)
                 self.procs[cur.name] = cur
                 self.order.append(cur.name)
                 continue
@@ -183,7 +187,10 @@ class B09Lib:
         elif first == "run":
             m = _RUN.match(text)
             if not m:
-                raise AnalysisError("M7", f"line {ln}", f"unparsable RUN statement: {text}")
+                # a RUN that does not read as `RUN name(args)` on one line: the library text itself is malformed (rule L11)
+                self.malformed.append((ln, text.strip(), "not a complete RUN statement (BASIC09 has no line continuation)"))
+                st.kind = "other"
+                return st
             st.kind = "run"
             st.run_name = m.group(1)
             st.run_args = [a.strip() for a in split_outside_quotes(m.group(3), ",")] if m.group(3) is not None and m.group(3).strip() else []
